@@ -26,6 +26,13 @@ import (
 
 var vf11OptionalPathType = reflect.TypeOf(OptionalPath{})
 
+// vf11Variant selects how containers are populated:
+//
+//	full      lists of 2 with spare capacity (cap 4), maps of 2
+//	empty     every list and map empty but NOT nil (cap 0), e.g. OptionalPaths after the last path was deleted
+//	emptycap  every list of zero length with spare capacity (cap 4), maps empty but not nil
+var vf11Variant = "full"
+
 func vf11Populate(v reflect.Value, salt int) {
 	t := v.Type()
 	switch v.Kind() {
@@ -48,13 +55,20 @@ func vf11Populate(v reflect.Value, salt int) {
 		vf11Populate(p.Elem(), salt)
 		v.Set(p)
 	case reflect.Slice:
-		s := reflect.MakeSlice(t, 2, 4) // spare capacity: an append through the copy stays in its array
-		vf11Populate(s.Index(0), salt)
-		vf11Populate(s.Index(1), salt+1)
-		v.Set(s)
+		switch vf11Variant {
+		case "empty":
+			v.Set(reflect.MakeSlice(t, 0, 0))
+		case "emptycap":
+			v.Set(reflect.MakeSlice(t, 0, 4))
+		default:
+			s := reflect.MakeSlice(t, 2, 4) // spare capacity: an append through the copy stays in its array
+			vf11Populate(s.Index(0), salt)
+			vf11Populate(s.Index(1), salt+1)
+			v.Set(s)
+		}
 	case reflect.Map:
 		m := reflect.MakeMap(t)
-		for i := 0; i < 2; i++ {
+		for i := 0; i < 2 && vf11Variant == "full"; i++ {
 			k := reflect.New(t.Key()).Elem()
 			switch k.Kind() {
 			case reflect.String:
@@ -88,13 +102,24 @@ func vf11Populate(v reflect.Value, salt int) {
 	}
 }
 
-func vf11FullConf() *Conf {
+func vf11FullConf(variant string) *Conf {
+	vf11Variant = variant
+	defer func() { vf11Variant = "full" }()
 	c := &Conf{}
 	vf11Populate(reflect.ValueOf(c).Elem(), 0)
+	if variant != "full" {
+		// the optional store of a path exists although the path maps of the other variants are empty:
+		// one path whose own lists are empty
+		op := reflect.New(vf11OptionalPathType).Elem()
+		vf11Populate(op, 1)
+		c.OptionalPaths["cam"] = op.Addr().Interface().(*OptionalPath)
+	}
 	return c
 }
 
-func vf11FullPath() *Path {
+func vf11FullPath(variant string) *Path {
+	vf11Variant = variant
+	defer func() { vf11Variant = "full" }()
 	p := &Path{}
 	vf11Populate(reflect.ValueOf(p).Elem(), 0)
 	return p
@@ -309,6 +334,25 @@ func vf11Apply(op string, kind string, v, inMap, key reflect.Value) bool {
 			return false
 		}
 		return set(reflect.Append(v, reflect.Zero(t.Elem())))
+	case "growset":
+		// reslice within the capacity and set the new element: a write into the same backing array
+		if kind != "l" || v.IsNil() || v.Cap() <= v.Len() {
+			return false
+		}
+		n := v.Len()
+		if !set(v.Slice(0, n+1)) {
+			return false
+		}
+		if inMap.IsValid() {
+			return true
+		}
+		e := v.Index(n)
+		fresh := reflect.New(e.Type()).Elem()
+		vf11Variant = "empty"
+		vf11Populate(fresh, 2)
+		vf11Variant = "full"
+		e.Set(fresh)
+		return true
 	case "mapins":
 		if kind != "m" || v.IsNil() {
 			return false
@@ -348,24 +392,29 @@ func TestVerif_C11_Mutations(t *testing.T) {
 	if len(tb.ops) == 0 {
 		t.Fatal("no mutation-operation table")
 	}
-	targets := []vf11Target{
-		{"Conf.Clone", func() reflect.Value { return reflect.ValueOf(vf11FullConf()) },
-			func(o reflect.Value) reflect.Value { return reflect.ValueOf(o.Interface().(*Conf).Clone()) }},
-		{"Path.Clone", func() reflect.Value { return reflect.ValueOf(vf11FullPath()) },
-			func(o reflect.Value) reflect.Value { return reflect.ValueOf(o.Interface().(*Path).Clone()) }},
-		// a configuration as it runs: decoded by the real decoders and validated (nil optional fields,
-		// empty lists, paths resolved by Validate)
-		{"Conf.Clone", func() reflect.Value { return reflect.ValueOf(vf11Live(t)) },
-			func(o reflect.Value) reflect.Value { return reflect.ValueOf(o.Interface().(*Conf).Clone()) }},
-		{"Path.Clone", func() reflect.Value { return reflect.ValueOf(vf11Live(t).Paths["cam1"]) },
-			func(o reflect.Value) reflect.Value { return reflect.ValueOf(o.Interface().(*Path).Clone()) }},
+	confClone := func(o reflect.Value) reflect.Value { return reflect.ValueOf(o.Interface().(*Conf).Clone()) }
+	pathClone := func(o reflect.Value) reflect.Value { return reflect.ValueOf(o.Interface().(*Path).Clone()) }
+	type target struct {
+		vf11Target
+		origin string
 	}
+	var targets []target
+	for _, variant := range []string{"full", "empty", "emptycap"} {
+		variant := variant
+		origin := map[string]string{"full": "populated", "empty": "empty-containers", "emptycap": "zero-length-with-capacity"}[variant]
+		targets = append(targets,
+			target{vf11Target{"Conf.Clone", func() reflect.Value { return reflect.ValueOf(vf11FullConf(variant)) }, confClone}, origin},
+			target{vf11Target{"Path.Clone", func() reflect.Value { return reflect.ValueOf(vf11FullPath(variant)) }, pathClone}, origin})
+	}
+	targets = append(targets,
+		// configurations as they run: decoded by the real decoders and validated (nil optional fields,
+		// empty lists, paths resolved by Validate); with paths, and after the last path was deleted
+		target{vf11Target{"Conf.Clone", func() reflect.Value { return reflect.ValueOf(vf11Live(t)) }, confClone}, "validated"},
+		target{vf11Target{"Path.Clone", func() reflect.Value { return reflect.ValueOf(vf11Live(t).Paths["cam1"]) }, pathClone}, "validated"},
+		target{vf11Target{"Conf.Clone", func() reflect.Value { return reflect.ValueOf(vf11LiveNoPaths(t)) }, confClone}, "validated-no-paths"})
 	realized := map[string]bool{}
-	for ti, tg := range targets {
-		origin := "populated"
-		if ti >= 2 {
-			origin = "validated"
-		}
+	for _, tg := range targets {
+		origin := tg.origin
 		orig := tg.build()
 		clean := vf08Hash(vf08Dump(orig))
 		// is the clone equal to the original at all (the canonical dump follows pointers and interfaces)
@@ -391,7 +440,7 @@ func TestVerif_C11_Mutations(t *testing.T) {
 					t.Fatalf("%s: path %s does not exist in a fresh clone", tg.name, pos.path())
 				}
 				shared := vf11Shared(pos.kind, ov, cv)
-				readBefore := vf08Short(vf08Dump(ov))
+				readBefore := vf08Short(vf11DumpCap(ov))
 				if pos.fixed && (op == "setnil" || op == "setnew") {
 					continue // the pointer held by an interface is replaced by assigning the interface
 				}
@@ -402,7 +451,7 @@ func TestVerif_C11_Mutations(t *testing.T) {
 				ov2, _, _, ook2 := vf11Nav(orig.Elem(), pos.steps)
 				readAfter := "(gone)"
 				if ook2 {
-					readAfter = vf08Short(vf08Dump(ov2))
+					readAfter = vf08Short(vf11DumpCap(ov2))
 				}
 				rec := map[string]any{
 					"rec": "mutation", "target": tg.name, "origin": origin, "path": pos.path(), "shape": pos.shape(), "kind": pos.kind, "op": op,
@@ -433,6 +482,14 @@ func TestVerif_C11_Mutations(t *testing.T) {
 		missing = []string{}
 	}
 	out.Emit(map[string]any{"rec": "shapes", "specShapes": len(tb.shapes), "realShapes": len(realized), "specShapesNotInRealTypes": missing})
+}
+
+// vf11DumpCap renders a value; a slice is shown up to its capacity (what its holder can reach by reslicing).
+func vf11DumpCap(v reflect.Value) string {
+	if v.Kind() == reflect.Slice && !v.IsNil() && v.Cap() > v.Len() {
+		return vf08Dump(v) + " cap:" + vf08Dump(v.Slice(0, v.Cap()))
+	}
+	return vf08Dump(v)
 }
 
 func vf11FirstDiff(a, b string) string {
@@ -476,6 +533,23 @@ func vf11Live(t testing.TB) *Conf {
 	}
 	if err := c.Validate(nil); err != nil {
 		t.Fatalf("scenario configuration is not valid: %v", err)
+	}
+	return c
+}
+
+// vf11LiveNoPaths is the running configuration after every path was deleted through the API
+// (the path maps are empty but not nil).
+func vf11LiveNoPaths(t testing.TB) *Conf {
+	c := vf11Live(t)
+	for _, n := range []string{"cam1", "pub", "~^re(.*)$"} {
+		var e string
+		c, e = vf11DoEdit(t, c, vf11Edit{"RemovePath", n, ""})
+		if e != "" {
+			t.Fatalf("scenario: cannot delete path %s: %s", n, e)
+		}
+	}
+	if c.OptionalPaths == nil || len(c.OptionalPaths) != 0 {
+		t.Fatalf("scenario: expected an empty, non-nil path map")
 	}
 	return c
 }
@@ -621,10 +695,39 @@ func TestVerif_C11_Rejected(t *testing.T) {
 		{"PatchGlobal", "", `{"logLevel":"debug"}`},
 		{"RemovePath", "pub", ``},
 	}
+	// the same on a running configuration whose last path was deleted (empty, non-nil path maps)
+	editsNoPaths := []vf11Edit{
+		{"AddPath", "new1", `{"source":"invalid://x"}`},
+		{"AddPath", "new1", `{"recordPath":"/no/path/variable"}`},
+		{"AddPath", "bad name!", `{}`},
+		{"ReplacePath", "new1", `{"source":"invalid://x"}`},
+		{"ReplacePath", "~^re(", `{}`},
+		{"PatchPath", "missing", `{"maxReaders":1}`},
+		{"RemovePath", "missing", ``},
+		{"PatchGlobal", "", `{"readTimeout":"0s"}`},
+		{"PatchGlobal", "", `{"apiAllowOrigins":["https://x"],"udpMaxPayloadSize":5000}`},
+		{"PatchPathDefaults", "", `{"recordPath":"x"}`},
+		// accepted
+		{"AddPath", "new1", `{"maxReaders":2}`},
+		{"ReplacePath", "new2", `{}`},
+	}
+	type scenario struct {
+		base  string
+		build func(testing.TB) *Conf
+		e     vf11Edit
+	}
+	var scenarios []scenario
+	for _, e := range edits {
+		scenarios = append(scenarios, scenario{"three-paths", vf11Live, e})
+	}
+	for _, e := range editsNoPaths {
+		scenarios = append(scenarios, scenario{"no-paths", vf11LiveNoPaths, e})
+	}
 	followUp := vf11Edit{"PatchGlobal", "", `{"logLevel":"debug"}`}
-	for i, e := range edits {
-		live := vf11Live(t)
-		ref := vf11Live(t) // an equal configuration nobody edits
+	for i, sc := range scenarios {
+		e := sc.e
+		live := sc.build(t)
+		ref := sc.build(t) // an equal configuration nobody edits
 		before := vf08Dump(reflect.ValueOf(live))
 		if before != vf08Dump(reflect.ValueOf(ref)) {
 			t.Fatal("scenario builder is not deterministic")
@@ -637,7 +740,7 @@ func TestVerif_C11_Rejected(t *testing.T) {
 			diffAt[k] = strings.TrimPrefix(diffAt[k], ".")
 		}
 		rec := map[string]any{
-			"rec": "rejected", "n": i, "edit": e.Edit, "name": e.Name, "body": e.Body,
+			"rec": "rejected", "n": i, "base": sc.base, "edit": e.Edit, "name": e.Name, "body": e.Body,
 			"rejected": errS != "", "error": errS,
 			"liveBefore": vf08Hash(before), "liveAfter": vf08Hash(after), "diffAt": diffAt,
 		}
